@@ -1,7 +1,7 @@
 #!/bin/bash
 # usage: verify_seeded.sh <Cxx> <dir with patch.diff + seeded_demo.rs>
 # Confirms in a scratch worktree (removed afterwards): patch applies, 43 tests pass with it, demo FAILS with it, demo PASSES without it.
-id=$1; src=$2; wt=/tmp/wtv/$id
+id=$1; src=$2; wt=/tmp/wtv/$(basename $src)
 rm -rf $wt; git -C /repo worktree prune; git -C /repo worktree add -q --detach $wt HEAD || exit 3
 cd $wt
 git apply $src/patch.diff || { echo "PATCH DOES NOT APPLY"; git -C /repo worktree remove --force $wt; exit 3; }
